@@ -86,6 +86,7 @@ func Load(repo string, overlay map[string][]byte) (*Program, error) {
 		}
 	}
 	sort.Slice(p.ModFns, func(i, j int) bool { return FuncKey(p.ModFns[i]) < FuncKey(p.ModFns[j]) })
+	p.ComputeGlobalFacts()
 	return p, nil
 }
 
